@@ -8,9 +8,11 @@ From Trans Require Export Common.
 Open Scope N_scope.
 
 (* Ackqueue.index with mask = size - 1, size a power of two, is the position modulo the size (the ring
-   model Ackq.Model.index uses the same land) *)
+   model Ackq.Model.index uses the same land).  The helper is one line and a rewrite may inline it (refactors/R14):
+   the statement is about the method if the source has it (present_sessions_index, read off the source); the second
+   half - the model's own land is the position modulo the size - does not depend on it *)
 Definition T_index : Prop := forall k n : N,
-  go_sessions_index (Z.of_N (2 ^ k - 1)) (Z.of_N n) = Some (Z.of_N (n mod 2 ^ k))
+  (present_sessions_index = true -> go_sessions_index (Z.of_N (2 ^ k - 1)) (Z.of_N n) = Some (Z.of_N (n mod 2 ^ k)))
   /\ N.land n (2 ^ k - 1) = n mod 2 ^ k.
 
 Definition T_full_empty : Prop := forall count size : N,
